@@ -33,6 +33,18 @@ def qinit(init):
     return {k: [q(x) for x in v] for k, v in init.items()}
 
 
+def embed_positions(rng, k, n_full):
+    """Positions (ascending, position j congruent to j mod k) at which k agents are kept inside a batch of n_full agents that
+    tiles them: the first third at the start, the middle third somewhere inside, the last third in the very last block."""
+    blocks = n_full // k
+    mid = rng.randrange(1, max(2, blocks - 1))
+    return [j + k * (0 if j < k // 3 else (mid if j < 2 * k // 3 else blocks - 1)) for j in range(k)]
+
+
+# sizes of the large batches: rows per period / rows of the whole panel beyond 2^14 and 2^16, not multiples of them
+LARGE_N = [20011, 70001]
+
+
 def sample_of(spec):
     m = spec["mdl"]
     return {
